@@ -148,8 +148,8 @@ theorem keeps_fsmNotificationReceived (s : Sess) (e sub : Nat) : Keeps f s (s.fs
   unfold fsmNotificationReceived
   split
   · split
-    · exact ((keeps_setRetry f s none).trans (keeps_closeConn hf _)).trans (keeps_setSt hf _ _)
-    · exact ((keeps_setRetry f s none).trans (keeps_closeConn hf _)).trans (keeps_setSt hf _ _)
+    · exact ((((keeps_setRetry f s none).trans (keeps_setHold f _ none)).trans (keeps_setKeepalive f _ none)).trans (keeps_closeConn hf _)).trans (keeps_setSt hf _ _)
+    · exact ((((keeps_setRetry f s none).trans (keeps_setHold f _ none)).trans (keeps_setKeepalive f _ none)).trans (keeps_closeConn hf _)).trans (keeps_setSt hf _ _)
     · exact keeps_errorClose hf s
     · exact keeps_errorClose hf s
     · exact keeps_errorClose hf s
